@@ -6,7 +6,7 @@ INDEX = {
    {"name": "VerifH01ArrayCountRange", "quick": {"bounds": {"array": 3}}, "thorough": {"bounds": {"array": 5}}},
    {"name": "VerifH01BitmapCountRange", "common": {"max_depth": 2000}, "quick": {"bounds": {"words": 1, "bases": 2}}, "thorough": {"bounds": {"words": 2, "bases": 3}}},
    {"name": "VerifH01Intersect", "common": {"max_depth": 2000}, "quick": {"bounds": {"runs": 2, "array": 2, "words": 1, "runlen": 3, "wordmask6": 1, "bases": 2, "near": 1}}},
-   {"name": "VerifH01IntersectionCount", "common": {"max_depth": 2000}, "quick": {"bounds": {"runs": 2, "array": 2, "words": 1, "runlen": 3, "wordmask6": 1, "bases": 2, "near": 1}}},
+   {"name": "VerifH01IntersectionCount", "common": {"max_depth": 2000}, "quick": {"bounds": {"runs": 2, "array": 2, "words": 1, "wordmask6": 1, "bases": 2, "near": 1}}},
    {"name": "VerifH01Difference", "common": {"max_depth": 2000}, "quick": {"bounds": {"runs": 2, "array": 2, "words": 1, "runlen": 3, "wordmask6": 1, "bases": 2, "near": 1}}},
    {"name": "VerifH01Contains", "quick": {"bounds": {"array": 3, "runs": 2, "words": 1, "bases": 2}}},
    {"name": "VerifH01Add", "quick": {"bounds": {"array": 3, "runs": 2, "words": 1, "bases": 2}}},
@@ -26,6 +26,10 @@ INDEX = {
  "C04": {"package": "./roaring", "harnesses": [
    {"name": "VerifH04RoundTrip", "common": {"max_depth": 2000}, "quick": {"bounds": {"containers": 1, "array": 2, "runs": 2, "words": 1, "bases": 1, "wordmask6": 1, "keychoices": 2}}, "thorough": {"bounds": {"containers": 2, "array": 3, "runs": 3, "words": 1, "bases": 2, "wordmask6": 1, "keychoices": 2}}},
    {"name": "VerifH04Import", "common": {"max_depth": 2000}, "quick": {"bounds": {"array": 1, "runs": 1, "words": 1, "bases": 1, "wordmask6": 1, "runlen": 2, "near": 1, "full": 1, "tkinds": 2, "ttyps": 1, "styps": 1}}, "thorough": {"bounds": {"array": 2, "runs": 2, "words": 1, "bases": 1, "wordmask6": 1, "runlen": 3, "near": 1, "full": 1, "tkinds": 2}}},
+ ]},
+ "C05": {"package": "./roaring", "harnesses": [
+   {"name": "VerifH05OpLog", "common": {"max_depth": 2000}, "quick": {"bounds": {"steps": 2, "ops": 4, "keys": 1}}, "thorough": {"bounds": {"steps": 2, "ops": 4, "keys": 2}, "max_paths": 400000}},
+   {"name": "VerifH05OpLogStep", "common": {"max_depth": 2000}, "quick": {"bounds": {"steps": 1, "ops": 6, "keys": 2}}},
  ]},
  "C06": {"package": "./roaring", "harnesses": [
    {"name": "VerifH06UnmarshalBinary", "common": {"max_depth": 2000}, "quick": {"bounds": {"len": 12}}, "thorough": {"bounds": {"len": 20}}},
